@@ -95,6 +95,43 @@ known("KF-C05-12", "C05", M, "Valid", "err-vs-ok", r"valid-text-rejected:float64
       "json.go Valid decodes into interface{}, so a number beyond float64 fails with a range error",
       "Valid rejecting another valid text that contains an out-of-range number", "Valid would need a non-converting scanner")
 
+# ------------------------------------------------------------------ C18
+C18_VALID = [("01", r"relax=num:parsefloat-grammar", "KF-C05-01"), ("02", r"relax=str:raw-ctl", "KF-C05-02"), ("03", r"relax=nul-terminates", "KF-C05-03"),
+             ("04", r"relax=skip:unvalidated", "KF-C05-04"), ("05", r"relax=stream:nul-skipped", "KF-C05-05"), ("06", r"relax=stream:literal-prefix-at-EOF", "KF-C05-06"),
+             ("07", r"relax=stream:literal-letters-unchecked", "KF-C05-07"), ("08", r"relax=stream:hex-unchecked", "KF-C05-08"),
+             ("09", r"relax=stream:leading-comma-or-colon-skipped", "KF-C05-09"), ("10", r"relax=stream:skip-ignores-junk-before-value", "KF-C05-10"),
+             ("11", r"relax=stream:trailing-after-top", "KF-C05-11")]
+for n, ctx, same in C18_VALID:
+    known("KF-C18-V" + n, "C18", "util-valid", "Valid", "ok-vs-err", ctx,
+          "Valid accepts a text encoding/json.Valid rejects (%s); same root cause as %s" % (ctx, same),
+          "json.go Valid is the stream decoder into interface{}; see " + same, "see " + same, "see " + same)
+known("KF-C18-V12", "C18", "util-valid", "Valid", "err-vs-ok", r"valid-text-rejected:float64-range-number",
+      'Valid("6e5535") is false (encoding/json.Valid: true)', "see KF-C05-12", "see KF-C05-12", "see KF-C05-12")
+CI = r"(Compact|Indent)"
+known("KF-C18-01", "C18", "util-reject", CI, "ok-vs-err", r"relax=num:parsefloat-grammar",
+      'Compact/Indent accept "01", "1.", "-.5"', "internal/encoder/compact.go compactNumber / indent.go: number = run of [0-9.eE+-] validated with strconv.ParseFloat",
+      "another number lenience ParseFloat shares", "the same lenient number scanner validates Marshaler output; changing it changes Marshal behaviour")
+known("KF-C18-02", "C18", "util-reject", CI, "ok-vs-err", r"relax=str:raw-ctl",
+      'Compact/Indent accept a string with a raw LF', "internal/encoder/compact.go compactString: only quote, backslash, NUL and HTML characters are looked at",
+      "another raw control character inside strings", "as KF-C18-01")
+known("KF-C18-03", "C18", "util-reject", CI, "ok-vs-err", r"relax=nul-terminates",
+      'Compact(dst, "1\x00x") succeeds', "internal/encoder/compact.go validateEndBuf: NUL sentinel", "acceptances needing an embedded NUL", "sentinel design")
+known("KF-C18-04", "C18", "util-reject", CI, "ok-vs-err", r"relax=compact:str-any-escape",
+      'Compact accepts "\"\\[\"" and "\"\\u\""', "internal/encoder/compact.go compactString: a backslash protects the next byte, whatever it is; \\u digits unchecked",
+      "another invalid escape sequence", "as KF-C18-01")
+known("KF-C18-05", "C18", "util-bytes", CI, "err-vs-ok", r"valid-text-rejected:float64-range-number",
+      'Compact(dst, "1e999") fails with a ParseFloat range error', "compactNumber validates with strconv.ParseFloat and treats ErrRange as an error",
+      "rejection of another valid text containing an out-of-range number", "as KF-C18-01")
+known("KF-C18-06", "C18", "util-bytes", "Indent", r"bytes-differ:missing-trailing-whitespace", r"buf=(empty|prefilled)",
+      'Indent(dst, "[1]   ", "", " ") drops the trailing blanks that encoding/json.Indent keeps',
+      "internal/encoder/indent.go: output ends with the value", "another difference that consists only of missing trailing whitespace",
+      "cosmetic; upstream behaviour since the first release")
+known("KF-C18-07", "C18", "util-htmlesc", "HTMLEscape", "not-equivalent", r"object:members-reordered",
+      'HTMLEscape(dst, `{"b":1,"ab":2}`) = `{"ab":2,"b":1}`', "json.go HTMLEscape decodes into interface{} and re-marshals: map members come out sorted",
+      "other re-ordering of members by HTMLEscape", "needs a token-level escaper instead of decode/encode")
+known("KF-C18-08", "C18", "util-htmlesc", "HTMLEscape", "not-equivalent", r"output-empty:float64-range-number",
+      'HTMLEscape(dst, "1e999") writes nothing', "json.go HTMLEscape: decode error is swallowed", "empty output for other texts with out-of-range numbers", "as KF-C18-07")
+
 json.dump({"comment": "generated by tools/gen_known.py; never written at check time", "findings": F},
           open(os.path.join(os.path.dirname(os.path.abspath(__file__)), "..", "known_findings.json"), "w"), indent=1, ensure_ascii=False)
 print(len(F), "entries")
